@@ -178,7 +178,7 @@ def cover_hists(cfg, root):
     import edgecover
     spec = os.path.join(root, "spec")
     h = hashlib.sha256()
-    for f in ("Minimq.tla", "MC_flow.tla", cfg):
+    for f in ("Minimq.tla", "MC_flow.tla", "Quota.tla", cfg):
         h.update(open(os.path.join(spec, f), "rb").read())
     h.update(open(os.path.join(root, "tools", "edgecover.py"), "rb").read())
     key = h.hexdigest()[:16]
